@@ -204,6 +204,11 @@ func checkPrincipals(t int, in, got []string) error {
 }
 
 func genStr(t *rapid.T, label string) string {
+	if rapid.IntRange(0, 23).Draw(t, label+"Long") == 11 {
+		// long values (nothing bounds the length of a KeyID or of its fields)
+		unit := rapid.SampledFrom([]string{"a", "host-", "é", `"`, "0123456789"}).Draw(t, label+"Unit")
+		return strings.Repeat(unit, rapid.SampledFrom([]int{1000, 4000, 4096, 5000, 20000, 70000}).Draw(t, label+"Len")/len(unit))
+	}
 	switch rapid.IntRange(0, 4).Draw(t, label+"K") {
 	case 0:
 		return rapid.SampledFrom([]string{"", `"`, `\`, "é", "日本", "a b", "u:touch", ":notouch", "SSH-"}).Draw(t, label)
@@ -235,6 +240,9 @@ func genAttrs(t *rapid.T) vh.KeyIDAttrs {
 	a.PrinsNil = rapid.IntRange(0, 4).Draw(t, "kprinsNil") == 0
 	if !a.PrinsNil {
 		n := rapid.IntRange(0, 3).Draw(t, "nkprins")
+		if rapid.IntRange(0, 23).Draw(t, "manyKPrins") == 11 {
+			n = rapid.SampledFrom([]int{8, 100, 400, 1000}).Draw(t, "nkprinsMany")
+		}
 		a.Prins = make([]string, n)
 		for i := range a.Prins {
 			a.Prins[i] = genStr(t, fmt.Sprintf("kprin%d", i))
@@ -325,7 +333,7 @@ func gen(t *rapid.T) Case {
 	return c
 }
 
-const rule = "certificates with KeyIDs built from attribute sets (16 flag combinations x touch policy {-1..4,7} x version, decorated with random transaction ids, principals, usage, extra members, member order, JSON whitespace inside and around the object), near-miss KeyIDs (one required member deleted / upper-cased / retyped, truncated text), free text and nil certificates; critical option nil-map / absent / empty / set, other critical options and look-alike names, extensions carrying the option name; certificate kind unset / user / host / undefined, serial and validity window at their extremes (no input of the type). Oracle: independently written decision table for GetType, Label = documented type name + 'SSH-' + transaction id (error for unknown), GetPrincipals suffix rules. Non-trivial: decodable KeyID with at least one flag set or the critical option present; distinct by Case hash."
+const rule = "certificates with KeyIDs built from attribute sets (16 flag combinations x touch policy {-1..4,7} x version, decorated with random transaction ids, principals, usage (one value in 24 is 1..70 KB long, one principal list in 24 has 8..1000 entries: KeyIDs beyond 4 KiB and 64 KiB), extra members, member order, JSON whitespace inside and around the object), near-miss KeyIDs (one required member deleted / upper-cased / retyped, truncated text), free text and nil certificates; critical option nil-map / absent / empty / set, other critical options and look-alike names, extensions carrying the option name; certificate kind unset / user / host / undefined, serial and validity window at their extremes (no input of the type). Oracle: independently written decision table for GetType, Label = documented type name + 'SSH-' + transaction id (error for unknown), GetPrincipals suffix rules. Non-trivial: decodable KeyID with at least one flag set or the critical option present; distinct by Case hash."
 
 func TestC19Random(t *testing.T) {
 	vh.Run(t, vh.Spec[Case]{Property: "C19", Name: "TestC19Random", Rule: rule, Gen: gen, Exec: exec})
